@@ -646,6 +646,15 @@ def run_case(case):
                                        for c in table[0]]
                         view = (e.fromcsv if fmt == 'csv' else e.fromtsv)(
                             rd, header=hdr_arg, **ra)
+                        if case.get('decoy'):
+                            # another reader view with OTHER csv arguments is
+                            # built (not read) before this one is read: views
+                            # keep their own arguments
+                            try:
+                                (e.fromcsv if fmt == 'csv' else e.fromtsv)(
+                                    tgt.reader(), **dict(case['decoy']))
+                            except Exception:
+                                pass
                         got = [r for r in iter(view)]
                         fresh_view = view
                         if hdr_arg is not None:
